@@ -4,7 +4,7 @@ model phase : MC_Aztec - geometry laws for all 36 sizes (layer spiral covers eve
               AztecHLEnc.tla: transcription of the library's state-search high-level encoder || decoding automaton for all strings up to length 4 (5) over
               representative bytes, plus a negative design (binary shift from punctuation mode without latch) that must violate RoundTrip
 trace valid.: every image is read by the reference reader of Aztec.tla (TraceAztec)"""
-import vlib, onedim, gen
+import vlib, onedim, gen, encconf
 
 
 def total_bits(layers, compact):
@@ -113,6 +113,10 @@ def run(tier):
                    dict(module="MC_AztecHL.tla", cfg="MC_AztecHL_nofix.cfg", workers=2, timeout=1000, expect_violation="RoundTrip")])
     drive = vlib.build_harness(chk.work)
     jobs = az_jobs(chk.rng, quick)
+    # encoder-model conformance (see tools/encconf.py): strings of MC_AztecHL's state space where the real state search left the model
+    wrong, drift = encconf.conformance(chk, "aztec", quick)
+    for k, c in enumerate(wrong + drift):
+        jobs.append(gen.enc("aztec", list(c), ((0, 23, 33)[k % 3], 0)))
     evs, extras = onedim.judge(chk, drive, jobs, "TraceAztec", "TraceAztec.cfg", 14 if quick else 16, wanted, heap="5g", timeout=6000, describe=describe)
     ok = [e for e in evs if e["res"]["kind"] == "ok"]
     chk.cov["symbols_decoded"] = len(ok)
